@@ -436,12 +436,18 @@ def processOp (st : St) (pid : Pid) (kind : String) (now : Int) (detail effsS pr
               else update st.drainHist pid { h with ops := h.ops ++ [(op, implToks, nextAlarm)] }
             | none => st.drainHist
         let st' := { st with models := update st.models pid m', obs := update st.obs pid o3, drainHist := dh }
-        if !fails.isEmpty then (st', .oracle (s!"node={pid} " ++ "; ".intercalate fails))
+        let modelProg : Nat × Nat × Nat :=
+          if m'.inst.termination.isSome then (o.inst + 1, 0, 0) else (o.inst, m'.inst.round, m'.inst.phase.toNat)
+        let toksOk := modelToks.length == implToks.length && (modelToks.zip implToks).all (fun (a, b) => effEq seenJ a b)
+        if !fails.isEmpty then
+          -- an oracle of one property fails on this call; if model and implementation differ on it as well, say
+          -- so in the same message (checks of the sibling properties of this harness read the ALSO-DIFF part)
+          let also := if !toksOk then s!" ;; ALSO-DIFF effects: model=[{" ".intercalate modelToks}]"
+            else if modelRet != implRet then s!" ;; ALSO-DIFF ret: model={modelRet} impl={implRet}"
+            else if modelProg != pg then s!" ;; ALSO-DIFF progress: model={modelProg} impl={pg}" else ""
+          (st', .oracle (s!"node={pid} " ++ "; ".intercalate fails ++ also))
         else
           -- correspondence
-          let modelProg : Nat × Nat × Nat :=
-            if m'.inst.termination.isSome then (o.inst + 1, 0, 0) else (o.inst, m'.inst.round, m'.inst.phase.toNat)
-          let toksOk := modelToks.length == implToks.length && (modelToks.zip implToks).all (fun (a, b) => effEq seenJ a b)
           if !toksOk then (st', .diff s!"node={pid} effects: model=[{" ".intercalate modelToks}]")
           else if modelRet != implRet then (st', .diff s!"node={pid} ret: model={modelRet} impl={implRet}")
           else if modelProg != pg then (st', .diff s!"node={pid} progress: model={modelProg} impl={pg}")
